@@ -2,7 +2,9 @@
 # try_seed.sh <seed-dir> <prop> [more props…]: confirm a seeded change and run the check(s) against it
 d=$1; shift
 name=$(basename $d)
-/verif/tools/verify_seed.sh $d > /tmp/verify-$name.log 2>&1 &
+# verify FIRST and to completion: it reverts and re-applies the patch, so running it beside the check
+# would let the harness be built from the unpatched source (this produced bogus "not reported" results)
+/verif/tools/verify_seed.sh $d > /tmp/verify-$name.log 2>&1
 for p in "$@"; do
   out=$(cd /verif && VERIF_REPO=$d ./check $p 2>&1)
   nv=$(echo "$out" | grep -c "^VIOLATION")
@@ -13,5 +15,4 @@ for p in "$@"; do
   [ -n "$first" ] && head -4 "$first" | cut -c1-420
   echo "$out" | grep -v "^VIOLATION\|^KNOWN" | tail -1 | cut -c1-200
 done
-wait
 grep -v "file changed" /tmp/verify-$name.log | tr '\n' ' '; echo
